@@ -111,8 +111,36 @@ class LogActionContext(ActionContext):
         _var_lookup = {}
 
         extractor = FormatExtractor(self, watch_results, _var_lookup)
-        log_msg = "[deep] %s" % extractor.vformat(log_msg, (), FormatDict(self.trigger_context.locals))
+        try:
+            text = extractor.vformat(log_msg, (), FormatDict(self.trigger_context.locals))
+        except ValueError:
+            # the format syntax gives ':' and '!' inside a field a meaning of its own, so expressions like {a != b},
+            # {name[1:]} or {s.split(':')} are cut in two and rejected - which must not cost us the message (and the
+            # snapshot it belongs to). Read the fields as what they are: the expression between the braces.
+            # (the variables collected so far stay: the id cache already refers to them)
+            del watch_results[:]
+            text = self.__plain_format(log_msg, extractor)
+        log_msg = "[deep] %s" % text
         return log_msg, watch_results, _var_lookup
+
+    @staticmethod
+    def __plain_format(log_msg: str, extractor: FormatExtractor) -> str:
+        parts = []
+        pos = 0
+        while pos < len(log_msg):
+            char = log_msg[pos]
+            if char in '{}' and log_msg[pos + 1:pos + 2] == char:
+                # an escaped brace
+                parts.append(char)
+                pos += 2
+            elif char == '{' and '}' in log_msg[pos:]:
+                end = log_msg.index('}', pos)
+                parts.append(str(extractor.get_field(log_msg[pos + 1:end], (), {})[0]))
+                pos = end + 1
+            else:
+                parts.append(char)
+                pos += 1
+        return ''.join(parts)
 
 
 class LogActionResult(ActionResult):
